@@ -360,6 +360,15 @@ func Build(v sb.V) interface{} {
 			return (*decimal.Decimal)(nil)
 		case "customsafe":
 			return (*CustomSafe)(nil) // Value and IsSafe have value receivers
+		case "promoted-stringer":
+			// the method belongs to a struct embedded by value and has a
+			// pointer receiver: reaching it through the nil pointer fails in
+			// the compiler's own wrapper
+			return (*PromotedStringer)(nil)
+		case "promoted-number":
+			return (*PromotedNumber)(nil)
+		case "promoted-boolean":
+			return (*PromotedBoolean)(nil)
 		}
 		return (*Plain)(nil)
 	}
@@ -631,4 +640,35 @@ func OwnNum(v interface{}) (float64, bool) {
 func isNilPtr(v interface{}) bool {
 	rv := reflect.ValueOf(v)
 	return rv.Kind() == reflect.Ptr && rv.IsNil()
+}
+
+type baseStringer struct{ s string }
+
+func (b *baseStringer) String() string { return b.s }
+
+type baseNumber struct{ n float64 }
+
+func (b *baseNumber) Number() float64 { return b.n }
+
+type baseBoolean struct{ b bool }
+
+func (b *baseBoolean) Boolean() bool { return b.b }
+
+// PromotedStringer is a Stringer through its pointer only, by a method
+// promoted from a struct it embeds by value.
+type PromotedStringer struct {
+	baseStringer
+	X int
+}
+
+// PromotedNumber is the same for Number.
+type PromotedNumber struct {
+	X int
+	baseNumber
+}
+
+// PromotedBoolean is the same for Boolean.
+type PromotedBoolean struct {
+	X int
+	baseBoolean
 }
